@@ -68,3 +68,45 @@ def verdict_name(m) -> str:
 
 
 __all__ = ["Accept", "Reject", "Unspec", "run_ir", "model_of", "blocks_equal", "materialise", "nodetap", "verdict_name"]
+
+
+def conservation(events: list, blocks: list) -> tuple[str | None, dict]:
+    """C03 producer/consumer checker over one accepted assembly (no .include_ips):
+    the bytes returned by node.emit during Program.emit, cut at every `*=`, must be exactly the
+    sequence of blocks handed to write_block (every produced byte in exactly one block, in order),
+    and each block must start at the file offset of the address the first node after the `*=` was given."""
+    expected: list[tuple[int | None, bytes]] = []
+    cur = bytearray()
+    cur_off: int | None = None
+    first = True
+    pending_offset = False
+    produced = 0
+    emits = [e for e in events if e[0] == "emit" and e[1] == "emit"]
+    for ev in emits:
+        if pending_offset:
+            cur_off = ev[5]        # physical offset of the address handed to the node that follows the `*=`
+            pending_offset = False
+        if ev[3] == "CodePositionNode":
+            if cur:
+                expected.append((cur_off, bytes(cur)))
+            cur = bytearray()
+            cur_off = None
+            pending_offset = True
+            first = False
+            continue
+        if ev[6]:
+            if first and not cur:
+                cur_off = ev[5]
+            cur += ev[7]
+            produced += ev[6]
+    if cur:
+        expected.append((cur_off, bytes(cur)))
+    stats = {"produced_bytes": produced, "written_bytes": sum(len(b) for _, b in blocks), "emit_events": len(emits)}
+    if len(expected) != len(blocks):
+        return f"nodes produced {len(expected)} non-empty run(s) between position moves, the writer received {len(blocks)} block(s)", stats
+    for i, ((eo, eb), (go, gb)) in enumerate(zip(expected, blocks)):
+        if bytes(gb) != eb:
+            return f"block {i}: the writer received {len(gb)} byte(s) {bytes(gb[:12]).hex()}.., the nodes produced {len(eb)} byte(s) {eb[:12].hex()}..", stats
+        if eo is not None and eo != go:
+            return f"block {i} written at file offset {go:#x} but the address it was assembled for maps to {eo:#x}", stats
+    return None, stats
